@@ -8,6 +8,7 @@
     (2) the property oracles of [Spec] on the observations alone. *)
 From Coq Require Import NArith.
 From Sci Require Export Sync.Model Sync.Spec.
+From Sci Require Import Gen.SyncShape.
 From Coq Require Import List Bool Arith.
 Import ListNotations.
 
@@ -32,7 +33,10 @@ Definition hview_eqb (a b : hview) : bool :=
   let '(a1, a2, a3, a4) := a in let '(b1, b2, b3, b4) := b in
   eqb a1 b1 && eqb a2 b2 && eqb a3 b3 && Nat.eqb a4 b4.
 
+(** [shape_ok]: the translator found every construct the model's atomic steps rely on, in the
+    order the model assumes (tools/gen.d/sync.py) *)
 Definition model_agrees (c : scase) : bool :=
+  shape_ok &&
   match run (c_strict c) (c_tr c) (init (c_nw c)) with
   | None => false
   | Some sf =>
